@@ -112,7 +112,19 @@ func compareIter(it IterAPI, m *ModelIter, after string, checkValue func(pos int
 			return f
 		}
 	}
+	ScribbleBehind(k)
 	return nil
+}
+
+// ScribbleBehind does what a caller's append(k, ...) does to a slice it was handed: it writes into the spare
+// capacity behind the slice's length (up to 8 bytes). Harmless when that capacity belongs to the slice alone; if it
+// is shared with other keys or values handed out by the same enumeration, those change and the comparison of the
+// following elements fails.
+func ScribbleBehind(k []byte) {
+	ext := k[len(k):min(cap(k), len(k)+8)]
+	for i := range ext {
+		ext[i] = 0xEE
+	}
 }
 
 // IterFeatures are measured per session.
